@@ -73,9 +73,20 @@ def trig_strbool(s):
 
 
 def trig_reforder(s):
+    """db.refs is not in the order in which the rendered document declares the references: inline ones inside their
+    tables (table by table, column by column), the others after all tables."""
     refs = s.all_refs()
     flags = [bool(r.inline and r.kind != '<>') for r in refs]
-    return flags != sorted(flags, reverse=True)
+    if flags != sorted(flags, reverse=True):
+        return True
+    tpos = {t.key: i for i, t in enumerate(s.tables)}
+    where = []
+    for r, f in zip(refs, flags):
+        if f:
+            t = next((x for x in s.tables if x.key == r.t1), None)
+            cpos = next((j for j, c in enumerate(t.columns) if c.name == r.c1[0]), -1) if t is not None else -1
+            where.append((tpos.get(r.t1, -1), cpos))
+    return where != sorted(where)
 
 
 def trig_mlset(s):
